@@ -670,7 +670,7 @@ def eval_dyad_maximum(a, b, backend):
                     1.0|1.1  -->  1.1
 
     """
-    return backend.np.maximum(a, b)
+    return backend.vec_fn2(a, b, backend.np.maximum)
 
 
 def eval_dyad_minimum(a, b, backend):
